@@ -126,6 +126,33 @@ pub fn on_fresh_thread<R: Send + 'static>(f: impl FnOnce() -> R + Send + 'static
     }
 }
 
+/// Like `on_fresh_thread`, but gives up after `secs` seconds: `Err(select index)`. The case thread
+/// cannot be stopped (it is inside a loop that never yields, or just far too slow); the caller must
+/// end the process. A timeout is never a verdict.
+pub fn on_fresh_thread_timeout<R: Send + 'static>(secs: u64, f: impl FnOnce() -> R + Send + 'static) -> Result<(R, usize), usize> {
+    let idx = SELECT_INDEX.fetch_add(1, Ordering::SeqCst);
+    let (tx, rx) = std::sync::mpsc::channel();
+    let h = std::thread::Builder::new()
+        .stack_size(512 << 20)
+        .spawn(move || {
+            crate::exec::touch_select_rng();
+            let r = f();
+            let _ = tx.send(r);
+        })
+        .expect("spawn case thread");
+    match rx.recv_timeout(std::time::Duration::from_secs(secs)) {
+        Ok(r) => {
+            let _ = h.join();
+            Ok((r, idx))
+        }
+        Err(std::sync::mpsc::RecvTimeoutError::Timeout) => Err(idx),
+        Err(std::sync::mpsc::RecvTimeoutError::Disconnected) => {
+            eprintln!("harness bug: case thread panicked outside a guarded poll");
+            std::process::exit(2);
+        }
+    }
+}
+
 /// Advance the seed counter to `idx` (replay).
 pub fn burn_select_indices(idx: usize) {
     while SELECT_INDEX.load(Ordering::SeqCst) < idx {
@@ -292,9 +319,30 @@ pub fn run_worker<P: Property>(a: &WorkerArgs) -> WorkerReport {
         last_fail: None,
     });
 
+    // per-case watchdog: wall-clock, so only ever "inconclusive" (exit code 3, which the parent turns
+    // into exit 2), with the case written out so that it can be looked at
+    let case_timeout: u64 = std::env::var("VERIF_CASE_TIMEOUT_SECS").ok().and_then(|s| s.parse().ok()).unwrap_or(match a.tier {
+        Tier::Quick => 180,
+        Tier::Thorough => 2400,
+    });
     let run_case = |case: &P::Case| -> (Outcome, usize) {
         let c = case.clone();
-        on_fresh_thread(move || P::run(&c))
+        match on_fresh_thread_timeout(case_timeout, move || P::run(&c)) {
+            Ok(r) => r,
+            Err(idx) => {
+                let rf = ReplayFile {
+                    property: P::ID.to_string(),
+                    profile: a.profile.clone(),
+                    select_index: idx,
+                    sig: "HANG/case-did-not-finish".into(),
+                    msg: format!("the case was still running after {case_timeout} s: a loop inside the library that never yields, or far too slow; no verdict"),
+                    case: serde_json::to_value(case).unwrap(),
+                };
+                let path = write_replay(&a.replay_dir, &rf);
+                eprintln!("INCONCLUSIVE property={} case still running after {case_timeout} s (stuck inside one poll?) case={}", P::ID, path);
+                std::process::exit(3);
+            }
+        }
     };
 
     let violation = |acc: &RefCell<Acc>, case_json: serde_json::Value, idx: usize, f: &Failure| {
@@ -459,8 +507,14 @@ pub fn replay<P: Property>(rf: &ReplayFile) -> Option<Failure> {
         std::process::exit(2)
     });
     burn_select_indices(rf.select_index);
-    let (out, _) = on_fresh_thread(move || P::run(&case));
-    out.fail
+    let secs: u64 = std::env::var("VERIF_CASE_TIMEOUT_SECS").ok().and_then(|s| s.parse().ok()).unwrap_or(2400);
+    match on_fresh_thread_timeout(secs, move || P::run(&case)) {
+        Ok((out, _)) => out.fail,
+        Err(_) => {
+            eprintln!("INCONCLUSIVE property={} the replayed case was still running after {secs} s (stuck inside one poll?)", P::ID);
+            std::process::exit(2)
+        }
+    }
 }
 
 /// Draw `n` sample cases (for debugging generators / distributions).
